@@ -33,18 +33,18 @@ def _crash(ob, exc, code):
 
 
 def _crash_ctx(ob, exc, code, has_err, cfg=None):
-    """Crash signature with the input class it belongs to: on recovered (error) trees and with a tab indentation config
-    the failing *function* identifies the defect (the visitors' stack discipline breaks in many statements of the same
-    function); on clean trees with ordinary configs the failing statement does."""
+    """Crash signature = the input class the crash belongs to.  The PEP 8 visitor (and the error finder's use of the
+    prefix re-lexer) lose their stack discipline on recovered trees and with a tab indentation config in many
+    statements: there the class itself is the finding.  On clean trees with ordinary configs the failing function is."""
     sig = crash_signature(exc)
     fn = ':'.join(sig.split(':')[:2])
     if cfg == 'tab':
-        sig = 'tab-config:' + fn
+        sig = 'tab-config'
     elif has_err:
-        sig = 'error-tree:' + fn
+        sig = 'error-tree'
     else:
-        sig = 'clean:' + sig
-    return Fail(ob, sig, '%s: %s' % (type(exc).__name__, exc), code)
+        sig = 'clean:' + fn
+    return Fail(ob, sig, '%s: %s [%s]' % (type(exc).__name__, exc, crash_signature(exc)), code)
 
 
 def _parse(code, version, fails, ob):
